@@ -83,13 +83,45 @@ def judge(v, o):
     return None
 
 
+def check_chains(run, cases):
+    """binding T: random chains rendered by the real code, judged by C04_Trace (reference parser + reference executor)"""
+    obs, hooks = common.run_pool(cases, deadline_ms=4000)
+    events, owner = [], []
+    for c in cases:
+        o = obs[c["id"]]
+        run.count(json.dumps(c["toks"], sort_keys=True), sum(1 for t in c["toks"] if t["t"] == "op") >= 2)
+        if o["st"] != "ok":
+            run.mismatch("C04 random chain %s" % common.crash_sig(o), c, "parsing or rendering did not terminate normally: " + o["st"],
+                         observed=(o.get("err") or o.get("stderr") or "")[:600])
+            continue
+        events.append({"toks": c["toks"], "ok": o["obs"]["ok"], "out": o["obs"]["out"]})
+        owner.append((c, o["obs"]))
+    rej, n = common.validate_trace("C04_Trace", events, batch=4000, heap="4g")
+    run.traces += n
+    for i, why in rej:
+        c, ob = owner[i]
+        case = dict(c)
+        case["_src"] = ob["src"]
+        run.mismatch("C04 random chain %s" % why, case, "recorded rendering rejected by C04_Trace: " + why,
+                     observed={"src": ob["src"], "ok": ob["ok"], "out": common.show(bytes(ob["out"])), "err": ob.get("err")})
+    if len(run.samples) < 6 and owner:
+        run.sample({"random_chain": owner[0][1]["src"], "rendered": common.show(bytes(owner[0][1]["out"]))})
+
+
 def check(run, only=None):
     run.rule = ("chains of 1..3 links (quick: all with <= 2 links, seeded stride of 3; thorough: all with 3 and a stride of 4) over 27 "
                 "links (25 binary operators, 'is odd', 'is not even') x 5 unary-prefix variants x 3 conditional variants (none, "
                 "trailing ?:, inner ?:); observed: AST shape from Env.Parse, rendering of the flat and of the fully parenthesised "
-                "spelling, value; non-trivial = >= 2 links")
+                "spelling, value; non-trivial = >= 2 links; plus (binding T) 4000 (thorough 60000) seeded random chains of 2..8 operands "
+                "with stacked prefix operators, tests and parenthesised sub-chains, rendered by the real code and accepted or rejected "
+                "by C04_Trace.tla (reference parser and executor)")
     run.assumptions = ["the documented operator table is parse/operator.go's, read as data in spec/Syntax.tla",
                        "chains whose reference evaluation leaves the C05 window are compared on shape and flat-vs-parenthesised only"]
+    if only is not None and only[0].get("k") == "c04toks":
+        check_chains(run, only)
+        return
+    if only is None:
+        check_chains(run, common.run_gen("c04chain", 60000 if run.tier == "thorough" else 4000, run.seed * 1000 + 4, run.tier))
     if only is not None:
         vecs = only
     else:
